@@ -62,3 +62,12 @@ func b2g(b bool) int {
 //@   ensures[oob] isOOBCheck(raw) ==> gr("oobChecks") == old(gr("oobChecks")) + 1 && gr("oobCode") == int(raw.u1) && gr("oobLen") == old(gr("icmpX")) && gr("oobAddX") == old(gr("iaddX")) && gr("oobAddY") == old(gr("iaddY")) && gr("oobArg") == old(gr("uextArg")) && gr("oobCeil") == old(gr("iconstVal")) && gr("oobViaExt") == old(b2g(gr("iaddX") == gr("uextRet") && gr("uextFT") == 32<<8|64)) && gr("oobViaConst") == old(b2g(gr("iaddY") == gr("iconstRet")))
 //@   ensures[not-oob] !isOOBCheck(raw) ==> gr("oobChecks") == old(gr("oobChecks")) && gr("oobCode") == old(gr("oobCode")) && gr("oobLen") == old(gr("oobLen")) && gr("oobAddX") == old(gr("oobAddX")) && gr("oobAddY") == old(gr("oobAddY")) && gr("oobArg") == old(gr("oobArg")) && gr("oobCeil") == old(gr("oobCeil")) && gr("oobViaExt") == old(gr("oobViaExt")) && gr("oobViaConst") == old(gr("oobViaConst"))
 //@   modifies raw.rValue, ghost("M:uext32"), ghost("M:uextArg"), ghost("loadPtr"), ghost("loadOff"), ghost("loadRet"), ghost("exitChecks"), ghost("uextArg"), ghost("uextRet"), ghost("uextFT"), ghost("iconstVal"), ghost("iconstRet"), ghost("iaddX"), ghost("iaddY"), ghost("iaddRet"), ghost("icmpX"), ghost("icmpY"), ghost("icmpC"), ghost("icmpRet"), ghost("oobChecks"), ghost("oobCode"), ghost("oobArg"), ghost("oobCeil"), ghost("oobLen"), ghost("oobAddX"), ghost("oobAddY"), ghost("oobViaExt"), ghost("oobViaConst")
+
+// (pure helpers, given a frame so that callers deep in an inlined chain keep the ghost registers)
+//@ func (v Value) Type() Type
+//@   ensures r0 == Type(v>>60)
+//@   modifies nothing
+//@ func (t Type) Bits() byte
+//@   may-panic t != TypeI32 && t != TypeF32 && t != TypeI64 && t != TypeF64 && t != TypeV128
+//@   ensures r0 == 32 || r0 == 64 || r0 == 128
+//@   modifies nothing
